@@ -68,11 +68,16 @@ def oracle_batch(progs, fuel=200):
         rounds = [int(x) for x in sx[0][1:]]
         rels = {}
         byid = {r.id: r for r in p.rels}
-        for ent in sx[1:]:
-            r = byid[int(ent[0])]
-            rows = ["\t".join(p.sx_value_text(v, t) for v, t in zip(tup, r.types)) for tup in ent[1:]]
-            rels[r.name] = sorted(rows)
-        res.append(("ok", rels, rounds))
+        try:
+            for ent in sx[1:]:
+                r = byid[int(ent[0])]
+                rows = ["\t".join(p.sx_value_text(v, t) for v, t in zip(tup, r.types)) for tup in ent[1:]]
+                rels[r.name] = sorted(rows)
+        except (ValueError, IndexError, TypeError) as e:
+            res.append(("ill-typed", "oracle produced a value that does not fit the declared column type: %s" % e))
+            continue
+        # 4th component: the static hypotheses of C01_run_program_correct (program_ok, program_det) hold for this input
+        res.append(("ok", rels, rounds, sx[0][0] == "rounds"))
     return res
 
 
